@@ -502,6 +502,22 @@ func (g *gen) genProgram(c *Case) *progInfo {
 	if (mode != 0 || g.p(0.2)) && modeLate {
 		script = append(script, DefOp{Op: "mode", H: 0, N: mode})
 	}
+	if g.p(0.12) {
+		// the program looks at its own help while it is still being declared (a pure read: what is declared
+		// afterwards must show up as if nobody had looked)
+		var withProbes []DefOp
+		known := 1
+		for _, op := range script {
+			withProbes = append(withProbes, op)
+			if op.Op == "cmd" {
+				known++
+			}
+			if g.p(0.15) {
+				withProbes = append(withProbes, DefOp{Op: "probe", H: g.r.Intn(known), N: g.r.Intn(3)})
+			}
+		}
+		script = withProbes
+	}
 	c.Script = script
 	return pi
 }
